@@ -373,7 +373,7 @@ func (w *World) thorough(id string, def propDef, run *Run) {
 	vs := loadVariants(w.Verif, id)
 	vs = append(vs, w.mechanicalVariants(id, w.Seed, 8)...)
 	results := make([]variantResult, len(vs))
-	sem := make(chan struct{}, 8)
+	sem := make(chan struct{}, 12)
 	var wg sync.WaitGroup
 	for i := range vs {
 		wg.Add(1)
